@@ -189,6 +189,15 @@ def translate(repo: Path) -> dict:
     for frag in ("result = midx.object_offset(", "if sha in self._get_pack_by_name(result[0]):", "except (KeyError, PackFileDisappeared):",
                  "return super().contains_packed(sha)"):
         _expect(frag in cp_src, f"DiskObjectStore.contains_packed: `{frag}` not found (a MIDX entry must be checked against its pack)")
+    gr_src = ast.unparse(T.find_def(osm, "DiskObjectStore.get_raw"))
+    for frag in ("result = midx.object_offset(sha)", "pack_name, _offset = result", "pack = self._get_pack_by_name(pack_name)",
+                 "return pack.get_raw(sha)", "except (KeyError, PackFileDisappeared):", "return super().get_raw(name)"):
+        _expect(frag in gr_src, f"DiskObjectStore.get_raw: `{frag}` not found")
+    off_uses = [(n.id, type(n.ctx).__name__) for n in ast.walk(T.find_def(osm, "DiskObjectStore.get_raw"))
+                if isinstance(n, ast.Name) and "offset" in n.id.lower()]
+    _expect(off_uses == [("_offset", "Store")],
+            f"DiskObjectStore.get_raw: the offset stored in the multi-pack-index is used ({off_uses}); the model and "
+            "midx_offset_irrelevant assume the object is looked up again through the named pack's own index")
     fb_src = ast.unparse(T.find_def(bm, "find_commit_bitmaps"))
     _expect("pack_bitmap = pack.bitmap" in fb_src and "except FileNotFoundError:" in fb_src,
             "find_commit_bitmaps: packs without a .bitmap file must be skipped")
@@ -264,6 +273,8 @@ end Dulwich.Gen.Accel
 #   ["snapshot", label]  ["restore", label, kind]   A only: save / put back acceleration files (staleness, mismatch)
 #   ["donor", kind]                        A only: copy the file from an unrelated repository
 #   ["rm", kind]                           A only: delete the files of one kind
+#   ["relayout", n]                        both: every pack replaced by one of the SAME NAME (same objects) with other offsets
+#   ["midx-sibling", writer]               A only: MIDX from a sibling repository with the same pack names, other layouts
 #   ["check", label]
 
 ACCEL_KINDS = ["commit-graph", "midx", "bitmap", "packed-refs", "idx-version"]
@@ -354,6 +365,14 @@ class Twin:
         self.extra_ids: list[bytes] = []         # ids of objects of the donor repository (absent here)
         self.written: set[str] = set()
 
+    def _each_side(self):
+        """N first, then A; remembers which side an operation is working on (a logical operation that fails on A
+        only fails BECAUSE of the acceleration data)."""
+        for s in self.sides:
+            self._side = s
+            yield s
+        self._side = None
+
     # ---- object construction (deterministic) --------------------------------------------------
     def _mk_tree_objs(self, files: dict):
         from dulwich.objects import Blob, Tree
@@ -388,7 +407,7 @@ class Twin:
         return t, objs
 
     def _store(self, objs, storage):
-        for s in self.sides:
+        for s in self._each_side():
             st = s.ll.object_store
             if storage == "loose":
                 for o in objs:
@@ -450,7 +469,7 @@ class Twin:
             self._tick()
         self.refnames.add(rn)
         val = self.ids[target] if target is not None else None
-        for s in self.sides:
+        for s in self._each_side():
             if actor == "git":
                 if val is None:
                     _git(s.path, "update-ref", "-d", rn.decode())
@@ -476,7 +495,7 @@ class Twin:
             self.refs[rn] = val
 
     def op_repack(self, actor):
-        for s in self.sides:
+        for s in self._each_side():
             if actor == "git":
                 # -A: unreachable objects are kept (loose); later commits may name them as parents
                 # (bare repositories default to repack.writeBitmaps=true: switched off, the op is purely logical)
@@ -486,14 +505,14 @@ class Twin:
                 s.ll.object_store.repack()
 
     def op_pack_loose(self):
-        for s in self.sides:
+        for s in self._each_side():
             s.ll.object_store.pack_loose_objects()
 
     def op_prune(self):
         """repack excluding what is unreachable from the refs (what gc does, without its pack_refs step)."""
         from dulwich.gc import find_unreachable_objects
         res = []
-        for s in self.sides:
+        for s in self._each_side():
             un = find_unreachable_objects(s.ll.object_store, s.ll.refs)
             res.append(un)
             s.ll.object_store.repack(exclude=un)
@@ -640,6 +659,92 @@ class Twin:
                 break
         self._drop_ll_caches()
 
+    # ---- same pack name, other layout ---------------------------------------------------------------
+    def _relayout_pack(self, base: Path, how: int) -> bool:
+        """Rewrite <base>.pack/.idx in place with the SAME objects in another order / compression (no deltas): the
+        file name stays (dulwich names a pack after its set of object ids), the offsets change.  Returns True iff
+        at least one offset differs from before (checked here, not assumed)."""
+        import os
+        from dulwich.object_format import SHA1
+        from dulwich.pack import Pack, write_pack
+        p = Pack(str(base), object_format=SHA1)
+        try:
+            objs = list(p.iterobjects())
+            old = {sha: off for sha, off, _crc in p.index.iterentries()}
+        finally:
+            p.close()
+        orders = [lambda o: list(reversed(o)), lambda o: sorted(o, key=lambda x: x.id),
+                  lambda o: sorted(o, key=lambda x: (-x.type_num, x.id)), lambda o: o[1:] + o[:1]]
+        tmp = self.root / "relayout-tmp"
+        for k in range(len(orders)):
+            new_order = orders[(how + k) % len(orders)](objs)
+            for ext in (".pack", ".idx"):
+                Path(str(tmp) + ext).unlink(missing_ok=True)
+            write_pack(str(tmp), [(o, None) for o in new_order], SHA1, deltify=False, compression_level=[0, 9, 1][(how + k) % 3])
+            q = Pack(str(tmp), object_format=SHA1)
+            try:
+                new = {sha: off for sha, off, _crc in q.index.iterentries()}
+            finally:
+                q.close()
+            if set(new) != set(old):
+                raise core.InfraError("harness bug: relayout changed the object set of a pack")
+            if any(new[sha] != old[sha] for sha in old):
+                for ext in (".pack", ".idx"):
+                    os.chmod(str(tmp) + ext, 0o644)
+                    os.replace(str(tmp) + ext, str(base) + ext)
+                return True
+        return False
+
+    def _relayout_repo(self, path: Path, how: int) -> int:
+        n = 0
+        for packf in sorted((Path(path) / "objects" / "pack").glob("*.pack")):
+            if self._relayout_pack(packf.with_suffix(""), how):
+                n += 1
+        return n
+
+    def op_relayout(self, how: int):
+        """Both sides: every pack is replaced by a pack of the same name with another layout (the objects "arrive
+        again in another order / compression").  Acceleration files are left alone, so a MIDX in A now holds the
+        offsets of a pack file that no longer exists under that name.  Odd `how`: the long-lived handles drop
+        their open pack files (as after an eviction) and read the new ones; even: they keep the old files mapped."""
+        changed = [self._relayout_repo(s.path, how) for s in self._each_side()]
+        if changed[0] != changed[1]:
+            raise core.InfraError(f"harness bug: relayout differs between the twins: {changed}")
+        self.accel_log.append(["relayout", how, changed[1]])
+        if how % 2:
+            for s in self._each_side():
+                for p in list(s.ll.object_store.packs):
+                    p.close()
+        return changed[1]
+
+    def op_midx_sibling(self, writer: str):
+        """A only: a MIDX written in a sibling repository that holds the same packs (same names) in another
+        layout is copied in: every entry names an existing pack, the offsets describe other files."""
+        import shutil
+        from dulwich.repo import Repo
+        sib = self.root / "sibling"
+        if sib.exists():
+            shutil.rmtree(sib)
+        shutil.copytree(self.A.path, sib)
+        try:
+            n = self._relayout_repo(sib, 0)
+            (sib / "objects" / "pack" / "multi-pack-index").unlink(missing_ok=True)
+            if writer == "git":
+                _git(sib, "multi-pack-index", "write")
+            else:
+                r = Repo(str(sib))
+                try:
+                    r.object_store.write_midx()
+                finally:
+                    r.close()
+            src = sib / "objects" / "pack" / "multi-pack-index"
+            if src.exists():
+                _install(src, self.A.path / "objects" / "pack" / "multi-pack-index")
+                self.accel_log.append(["midx-sibling", writer, n])
+                self.written.add("midx")
+        finally:
+            shutil.rmtree(sib, ignore_errors=True)
+
     def op_rm(self, kind):
         for f in _accel_files(self.A.path)[kind]:
             try:
@@ -679,11 +784,15 @@ class Twin:
             self.op_donor(op[1])
         elif k == "rm":
             self.op_rm(op[1])
+        elif k == "relayout":
+            self.op_relayout(op[1])
+        elif k == "midx-sibling":
+            self.op_midx_sibling(op[1])
         else:
             raise ValueError(f"unknown op {op}")
 
     def close(self):
-        for s in self.sides:
+        for s in self._each_side():
             s.close()
 
     # ---- ground truth helpers (from construction, independent of dulwich's readers) --------------
@@ -1186,9 +1295,11 @@ def gen_scenario(rng, subset, use_git: bool, size: int = 10) -> list:
     names, tags = [], []
     nref = [0]
 
+    git_ok = [use_git]   # C git itself trusts MIDX offsets (it names packs by content): no git ops once they are stale
+
     def actor():
         r = rng.random()
-        return "git" if use_git and r < 0.3 else "other" if r > 0.8 else "dulwich"
+        return "git" if git_ok[0] and r < 0.3 else "other" if r > 0.8 else "dulwich"
 
     def add_commit():
         name = f"c{len(names)}"
@@ -1223,7 +1334,7 @@ def gen_scenario(rng, subset, use_git: bool, size: int = 10) -> list:
         kinds = list(kinds)
         rng.shuffle(kinds)
         for k in kinds:
-            w = "git" if use_git and rng.random() < 0.5 else "dulwich"
+            w = "git" if git_ok[0] and rng.random() < 0.5 else "dulwich"
             ops.append(["accel", k, w, rng.choice(WRITER_VARIANTS[k][w])])
 
     # phase 1: history
@@ -1256,6 +1367,14 @@ def gen_scenario(rng, subset, use_git: bool, size: int = 10) -> list:
     ops.append(["check", "stale-continued"])
     # phase 4: maintenance after the files were written
     r = rng.random()
+    if "midx" in subset and rng.random() < 0.4:
+        # same pack names, other layouts: the MIDX offsets no longer describe the files
+        if rng.random() < 0.6:
+            ops.append(["relayout", rng.randint(0, 5)])
+        else:
+            ops.append(["midx-sibling", "git" if use_git and rng.random() < 0.5 else "dulwich"])
+        ops.append(["check", "stale-relayout"])
+        git_ok[0] = False
     if r < 0.4:
         ops.append(["repack", actor()])
     elif r < 0.8:
@@ -1264,7 +1383,7 @@ def gen_scenario(rng, subset, use_git: bool, size: int = 10) -> list:
     else:
         ops.append(["pack-loose"])
     if "packed-refs" in subset and rng.random() < 0.6:
-        ops.append(["accel", "packed-refs", "git" if use_git and rng.random() < 0.5 else rng.choice(["dulwich", "other"]), "all"])
+        ops.append(["accel", "packed-refs", "git" if git_ok[0] and rng.random() < 0.5 else rng.choice(["dulwich", "other"]), "all"])
     ops.append(["check", "stale-maintained"])
     # phase 5: stale / mismatched files put back, or everything rewritten
     r = rng.random()
@@ -1424,7 +1543,20 @@ def run_scenario(ctx, ops: list, sid: str, donor: Path | None, plan_seed: str, e
                                  "writer completes", f"{type(e).__name__}: {e}")
                     break
             else:
-                tw.apply(op)
+                try:
+                    tw.apply(op)
+                except core.InfraError:
+                    raise
+                except Exception as e:
+                    if getattr(tw, "_side", None) is not tw.A:
+                        raise
+                    # the same logical operation succeeded on the twin without acceleration files
+                    import traceback
+                    ctx.oracle_fail("twins.op", {"ops": list(done), "sid": sid, "accelerators": list(tw.accel_log),
+                                                 "trace": traceback.format_exc()[-1200:]},
+                                    f"operation {op} raises {type(e).__name__}: {str(e)[:200]} in the repository with acceleration "
+                                    "data; the same operation succeeds without", None)
+                    break
     finally:
         tw.close()
         shutil.rmtree(root, ignore_errors=True)
